@@ -20,10 +20,10 @@ theorem bytes_round_trip (n : ℕ) : Codec.implBnBytes (Codec.bnBytesEncode (n :
   simp only [Codec.implBnBytes, Codec.bnBytesEncode, BN.Spec.fromBytes, Int.natAbs_natCast]
   rw [BN.ofDigits_toDigits 256 (by norm_num)]
 
-/-- **`bytes_loses_sign`**: the binary form is the magnitude only — for every negative integer the
-bytes written decode to its absolute value, not to the integer.  Model-level statement of the
-defect `C15/negative_bignumber_msgpack_openssl` (confirmed on the real code by the stream `ser`:
-a negative `BigNumber` does not survive a MessagePack round trip under the OpenSSL back-end). -/
+/-- **`bytes_loses_sign`**: `to_bytes` is the magnitude only — for every negative integer the
+bytes written decode to its absolute value, not to the integer.  This is why serde must not use
+the byte form for a negative number (repaired defect `C15/negative_bignumber_msgpack_openssl`,
+see `binary_form_round_trip`); it remains a fact about the `to_bytes` / `from_bytes` API. -/
 theorem bytes_loses_sign (z : ℤ) (h : z < 0) :
     Codec.implBnBytes (Codec.bnBytesEncode z) = ok (-z) ∧
     Codec.implBnBytes (Codec.bnBytesEncode z) ≠ ok z := by
@@ -37,6 +37,34 @@ theorem bytes_loses_sign (z : ℤ) (h : z < 0) :
   omega
 
 example : Codec.implBnBytes (Codec.bnBytesEncode (-5)) = ok 5 := by decide
+
+/-- **`binary_form_round_trip`**: what serde writes for a `BigNumber` in a non-human-readable format
+(OpenSSL: magnitude bytes for `z ≥ 0`, decimal text for `z < 0`; pure Rust: decimal text) decodes
+to the number under the same back-end, for EVERY integer of either sign; and what the pure-Rust
+build writes is read by the OpenSSL build -/
+theorem binary_form_round_trip (z : ℤ) :
+    Codec.bnBinDecode .openssl (Codec.bnBinEncode .openssl z) = ok z ∧
+    Codec.bnBinDecode .rust (Codec.bnBinEncode .rust z) = ok z ∧
+    Codec.bnBinDecode .openssl (Codec.bnBinEncode .rust z) = ok z := by
+  have ht : ∀ b, Codec.implBnText b 10 (Codec.bnDecEncode z) = ok z := fun b => by
+    rw [Codec.implBnText_eq_spec b 10 (Or.inl rfl)]
+    exact BN.Spec.parseNumeral_print 10 (Or.inl rfl) z
+  refine ⟨?_, by simp only [Codec.bnBinEncode, Codec.bnBinDecode]; exact ht _,
+    by simp only [Codec.bnBinEncode, Codec.bnBinDecode]; exact ht _⟩
+  unfold Codec.bnBinEncode
+  by_cases hz : z < 0
+  · simp only [hz, if_true, Codec.bnBinDecode]; exact ht _
+  · simp only [hz, if_false, Codec.bnBinDecode, Codec.implBnBytes, Codec.bnBytesEncode, BN.Spec.fromBytes]
+    rw [BN.ofDigits_toDigits 256 (by norm_num)]
+    congr 1; omega
+
+/-- **finding `C15/msgpack_openssl_not_readable_by_rust_backend`** (still open): the byte form the
+OpenSSL build writes for every non-negative number is refused by the pure-Rust build, which
+deserialises a `BigNumber` from text only -/
+theorem openssl_binary_unreadable_by_rust (z : ℤ) (h : 0 ≤ z) :
+    Codec.bnBinDecode .rust (Codec.bnBinEncode .openssl z) = err := by
+  unfold Codec.bnBinEncode
+  simp [show ¬ z < 0 by omega, Codec.bnBinDecode]
 
 /-- **decimal text of an integer reads back as that integer**, for every integer of either sign,
 on both back-ends (`to_dec` then `from_dec`: the human-readable form, and the only form under the
@@ -58,17 +86,22 @@ theorem scalar_bytes_round_trip (x : ℕ) (h : x < Sc.r) :
 
 open CL.Curve in
 /-- **the 128-byte form of an affine point of the twist reads back as that point**: for all
-coordinates `< p` satisfying the curve equation (`ECP2::tobytes` / `frombytes` behind `PointG2`,
-`Tail`, keys, proofs) -/
+coordinates `< p` satisfying the curve equation, through the strict decoder (`PointG2`, `Tail`,
+keys, proofs) and through the identity-carrying one (`PointG2Inf`, `Accumulator`, `Witness`) -/
 theorem g2_bytes_round_trip (x y : F2) (hxa : x.a < p) (hxb : x.b < p) (hya : y.a < p) (hyb : y.b < p)
     (hc : onCurveAff B2 x y = true) :
-    implG2Bytes (g2BytesOfAffine x y) = .ok (.aff x y) :=
-  (g2_round x y hxa hxb hya hyb hc).1
+    implG2Bytes (g2BytesOfAffine x y) = .ok (.aff x y) ∧
+    implG2BytesInf (g2BytesOfAffine x y) = .ok (.aff x y) :=
+  ⟨g2_round_strict x y hxa hxb hya hyb hc, (g2_round x y hxa hxb hya hyb hc).1⟩
 
 open CL.Curve in
-/-- the identity (empty accumulator, witness of a single credential) is written as `(0, 1)` and
-reads back as the identity -/
-theorem g2_identity_bytes_round_trip : implG2Bytes g2IdBytes = .ok .inf := by decide +kernel
+/-- the identity (empty accumulator, witness of a single credential) is written as `(0, 1)`
+whatever representation arithmetic left behind, and reads back as the identity through the
+identity-carrying decoder; the strict decoder refuses it -/
+theorem g2_identity_bytes_round_trip :
+    implG2BytesInf g2IdBytes = .ok .inf ∧ implG2Bytes g2IdBytes = .err ∧
+    g2TextBytes ⟨g2IdRaw⟩ = g2IdBytes ∧
+    g2TextBytes ⟨[⟨2, p⟩, ⟨2, p⟩, ⟨3, 5⟩, ⟨1, 7⟩, ⟨2, p⟩, ⟨3, 2 * p⟩]⟩ = g2IdBytes := by decide +kernel
 
 /-! ## legacy layouts (`rms`, `m1`) -/
 
@@ -101,6 +134,22 @@ theorem current_layout_round_trip (isZero : J → Bool) (n s rctxt z : J) (r : O
     decodeLegacy eqProofSpec isZero (encodeCurrent eqProofSpec ⟨[ra, ap, e, v, m2], m⟩) =
       some ⟨[ra, ap, e, v, m2], m⟩ := by
   refine ⟨⟨_, rfl, by rfl⟩, by rfl, ⟨_, rfl, by rfl⟩, by rfl⟩
+
+/-- **compact (positional) form of the two types with a legacy field**: the five / six current
+fields written in declaration order decode to the object (the legacy slot is the LAST one of the
+helper struct and defaults when the sequence ends before it — repaired defects
+`C15/msgpack_compact_public_key_never_decodes`, `…_proof_never_decodes`); a sixth / seventh slot is
+read as the legacy value -/
+theorem compact_legacy_round_trip (isZero : J → Bool) (n s rctxt z rms : J) (r : Obj)
+    (ra ap e v m2 m1 : J) (m : Obj) :
+    decodeLegacySeq keySpec isZero (encodeCurrentSeq keySpec ⟨[n, s, rctxt, z], r⟩) = some ⟨[n, s, rctxt, z], r⟩ ∧
+    decodeLegacySeq eqProofSpec isZero (encodeCurrentSeq eqProofSpec ⟨[ra, ap, e, v, m2], m⟩) =
+      some ⟨[ra, ap, e, v, m2], m⟩ ∧
+    decodeLegacySeq keySpec isZero [n, s, .obj r, rctxt, z, rms] =
+      some ⟨[n, s, rctxt, z], if isZero rms then r else mapInsert "master_secret" rms r⟩ ∧
+    decodeLegacySeq eqProofSpec isZero [ra, ap, e, v, .obj m, m2, m1] =
+      some ⟨[ra, ap, e, v, m2], if isZero m1 then m else mapInsert "master_secret" m1 m⟩ := by
+  refine ⟨by rfl, by rfl, by rfl, by rfl⟩
 
 /-- a leaf test used in the examples: the text `"0"` -/
 def isZeroStr : J → Bool
@@ -192,32 +241,41 @@ def isStr : J → Bool
   | .str _ => true
   | _ => false
 
-/-- **positional (compact MessagePack) form, nothing skipped**: the round trip is the identity -/
-theorem delta_compact_partial (accOk : J → Bool) (a b : J) (i r : ℕ) (is rs : List ℕ)
-    (ha : accOk a = true) (hb : accOk b = true) (han : a.isNull = false) :
-    decodeDeltaSeq accOk (encodeDeltaSeq ⟨some a, b, i :: is, r :: rs⟩) =
-      some ⟨some a, b, i :: is, r :: rs⟩ := by
-  have hi := readNats_natArr (i :: is)
-  have hr := readNats_natArr (r :: rs)
-  simp only [List.map_cons, Int.ofNat_eq_coe] at hi hr
-  simp +decide [encodeDeltaSeq, natArr, decodeDeltaSeq, ha, hb, han, hi, hr]
+/-- **positional (compact MessagePack) form**: binary formats carry all four fields (`None` as nil,
+empty sets as empty arrays — the hand-written `Serialize` omits empties in human-readable formats
+only), and the round trip is the identity for EVERY delta (repaired defect
+`C15/msgpack_compact_delta_skipped_field`) -/
+theorem delta_compact_round_trip (accOk : J → Bool) (d : Delta) (hacc : accOk d.acc = true)
+    (hp : ∀ a, d.prev = some a → a.isNull = false ∧ accOk a = true) :
+    decodeDeltaSeq accOk (encodeDeltaSeq d) = some d := by
+  obtain ⟨prev, acc, issued, revoked⟩ := d
+  have hi := readNats_natArr issued
+  have hr := readNats_natArr revoked
+  cases prev with
+  | none => simp +decide [encodeDeltaSeq, natArr, decodeDeltaSeq, J.isNull, hi, hr, hacc] at *
+  | some a =>
+    obtain ⟨han, hok⟩ := hp a rfl
+    simp +decide [encodeDeltaSeq, natArr, decodeDeltaSeq, han, hok, hi, hr, hacc] at *
 
-/-- **finding `C15/msgpack_compact_delta_skipped_field`** (machine-checked description): in the
-positional form a skipped field shifts the others — a delta that only revokes index 5 is read
-back as a delta that ISSUES index 5, and a delta without predecessor does not decode at all -/
-theorem delta_compact_finding_skipped_field :
-    decodeDeltaSeq isStr (encodeDeltaSeq ⟨some (.str "acc"), .str "acc", [], [5]⟩)
+/-- why the omission rule must not apply to positional formats (what the derived `Serialize` with
+`skip_serializing_if` did before the repair): a skipped field shifts the others — a delta that only
+revokes index 5 would be read back as a delta that ISSUES index 5, and a delta without predecessor
+would not decode at all -/
+theorem delta_positional_skipping_misreads :
+    decodeDeltaSeq isStr (encodeDeltaSeqSkipping ⟨some (.str "acc"), .str "acc", [], [5]⟩)
       = some ⟨some (.str "acc"), .str "acc", [5], []⟩ ∧
-    decodeDeltaSeq isStr (encodeDeltaSeq ⟨none, .str "acc", [], []⟩) = none ∧
-    decodeDeltaSeq isStr (encodeDeltaSeq ⟨none, .str "acc", [1], [2]⟩) = none := by
-  refine ⟨by rfl, by rfl, by rfl⟩
+    decodeDeltaSeq isStr (encodeDeltaSeqSkipping ⟨none, .str "acc", [], []⟩) = none ∧
+    decodeDeltaSeq isStr (encodeDeltaSeqSkipping ⟨none, .str "acc", [1], [2]⟩) = none ∧
+    decodeDeltaSeq isStr (encodeDeltaSeq ⟨some (.str "acc"), .str "acc", [], [5]⟩)
+      = some ⟨some (.str "acc"), .str "acc", [], [5]⟩ := by
+  refine ⟨by rfl, by rfl, by rfl, by rfl⟩
 
 /-! ## the field table -/
 
 /-- **`wire_tables_frozen`**: the layout table used by `wire_check` renders to exactly the table
 recorded from the source tree by `tools/record_wire.py` (135 entries: every field name incl.
-`ge_proofs`, `prevAccum`, the skip and default rules, the transparent newtypes, the two legacy
-fields).  `./check C15` re-runs the recorder against the working tree on every run. -/
+`ge_proofs`, `prevAccum`, the skip rules — human-readable formats only — and default rules, the
+transparent newtypes, the two legacy fields, last in their helper structs).  `./check C15` re-runs the recorder against the working tree on every run. -/
 theorem wire_tables_frozen : flat table = recorded := by decide
 
 example : lookupLayout "Tail" = some (.transparent .g2) := by decide
